@@ -127,6 +127,8 @@ def c06(result, slack=1):
     """bounded work: each input asked at most once, never after a refusal;
     attempts(L) <= 1 + slack*0 + (#distinct things L had to wait for)"""
     errs = []
+    if result.exc is not None and result.exc[0] in ('NonTermination', 'RecursionError'):
+        errs.append(('non-termination', f'solve() does not terminate: {result.exc}'))
     asked = collections.Counter(p[0] for p in result.prompts)
     for n, c in asked.items():
         if c > 1:
